@@ -273,6 +273,7 @@ func (s *shapes) lean() string {
 // (they index slices, allocate, build errors). Each kernel is assembled from expressions/statements printed from the
 // current AST, so it is regenerated from the source on every run; anything not found makes the kernel absent.
 type Synth struct {
+	Locks  int // Lock/Unlock statements the translator dropped (none of the bitmap kernels has a mutex: must stay 0)
 	consts []string
 	funcs  []string
 	Errs   []string
@@ -316,6 +317,11 @@ func (s *Synth) Translate(keys ...string) (string, map[string]error) {
 		return "", map[string]error{"synth": fmt.Errorf("synthetic package does not parse: %v", err)}
 	}
 	errs := p.TranslateAll(keys...)
+	for _, k := range p.Kernels() {
+		if k != nil {
+			s.Locks += len(k.Locks)
+		}
+	}
 	return p.Emit(), errs
 }
 
@@ -517,15 +523,27 @@ func ExtractC08(repo, leanDir string) {
 	al1k.add(BodyIs(f1k, "Bit1024", "Or", "{ var d = make([]Bit64, L16) for i := 0; i < L16; i++ { d[i] = b[i].Or(c[i]) } return d }"))
 	al1k.add(BodyIs(f1k, "Bit1024", "Equal", "{ for i := 0; i < L16; i++ { if b[i] != c[i] { return false } } return true }"))
 	al1k.add(BodyIs(f1k, "", "NewBit1024", "{ return make([]Bit64, L16) }"))
-	tab := "unknown"
-	tabDev := "init: u64Tab fill loop not recognised"
-	if gofacts.Has(f64.Body("", "init"), "for i := uint64(0); i < 64; i++ { u64Tab[i] = 1 << i }") {
-		tab, tabDev = "ok", ""
+	// the one `init` of internal/bit64.go, whole body (a substring test would accept anything appended to it)
+	tab, tabDev := BodyIs(f64, "", "init", "{ for i := uint64(0); i < 64; i++ { u64Tab[i] = 1 << i } for i := byte(0); i < 64; i++ { seq64Buf[i] = i } }")
+	nInit := 0
+	for _, d := range f64.AST.Decls {
+		if fd, ok := d.(*ast.FuncDecl); ok && fd.Recv == nil && fd.Name.Name == "init" {
+			nInit++
+		}
+	}
+	if nInit != 1 {
+		tab, tabDev = "unknown", fmt.Sprintf("internal/bit64.go declares %d init functions", nInit)
+	}
+	// the four setters, whole bodies: index arithmetic, guard, and NOTHING after the Set/Unset call
+	var setters shapes
+	for _, e := range [][3]string{{"SetI32", "Set", ""}, {"UnsetI32", "Unset", ""}, {"SetI16", "Set", ""}, {"UnsetI16", "Unset", ""}} {
+		setters.add(BodyIs(f1k, "Bit1024", e[0], "{ var index = i / B64 if index >= 0 && index < L16 { var mod = byte(i % B64) b[index]."+e[1]+"(mod) } }"))
 	}
 
 	// kernels: Bit64.Set/Unset straight from the package; the four index computations as synthetic kernels
 	var kernels strings.Builder
 	var kerrs []string
+	kernelLocks := 0
 	if p, err := go2lean.LoadPkg(repo, "bitmap1024/internal"); err != nil {
 		kerrs = append(kerrs, "internal: "+err.Error())
 	} else {
@@ -538,6 +556,11 @@ func ExtractC08(repo, leanDir string) {
 		}
 		kerrs = append(kerrs, go2lean.SortedErrs(p.TranslateAll("Bit64.Set", "Bit64.Unset"))...)
 		kernels.WriteString(p.Emit())
+		for _, k := range p.Kernels() {
+			if k != nil {
+				kernelLocks += len(k.Locks)
+			}
+		}
 	}
 	var syn Synth
 	syn.AddConsts(f1k)
@@ -549,9 +572,13 @@ func ExtractC08(repo, leanDir string) {
 	emit, errs := syn.Translate("SetI32_sel", "UnsetI32_sel", "SetI16_sel", "UnsetI16_sel")
 	kerrs = append(kerrs, go2lean.SortedErrs(errs)...)
 	kernels.WriteString(emit)
+	kernelLocks += syn.Locks
 
 	var devs []string
-	for _, s := range []*shapes{&it64, &rit64, &it1k, &rit1k, &gn64, &gn1k, &al64, &al1k} {
+	if kernelLocks != 0 {
+		devs = append(devs, fmt.Sprintf("%d Lock/Unlock statements in the set/unset kernels", kernelLocks))
+	}
+	for _, s := range []*shapes{&it64, &rit64, &it1k, &rit1k, &gn64, &gn1k, &al64, &al1k, &setters} {
 		devs = append(devs, s.devs...)
 	}
 	if tabDev != "" {
@@ -568,7 +595,7 @@ func ExtractC08(repo, leanDir string) {
 		"def facts : Nv.C08.Facts where\n" +
 		"  iter64 := " + it64.lean() + "\n  riter64 := " + rit64.lean() + "\n  iter1024 := " + it1k.lean() + "\n  riter1024 := " + rit1k.lean() +
 		"\n  getN64 := " + gn64.lean() + "\n  getN1024 := " + gn1k.lean() + "\n  algebra64 := " + al64.lean() + "\n  algebra1024 := " + al1k.lean() +
-		"\n  tabInit := ." + tab + "\n\n" +
+		"\n  tabInit := ." + tab + "\n  setters := " + setters.lean() + fmt.Sprintf("\n  kernelLocks := %d\n\n", kernelLocks) +
 		"/-! kernels translated by go2lean (assumed: `u64Tab[i]` = `1#64 <<< i.toNat`) -/\n" + kernels.String() +
 		"end Nv.Gen.C08\n"
 	if err := gofacts.WriteIfChanged(filepath.Join(leanDir, "Nv/Gen/C08.lean"), out); err != nil {
